@@ -2,13 +2,17 @@
 C01 — integer expressions have the C11 value and the C11 type.
 
 Property theorems only (definitions and helper lemmas: Model/C01Expr, Lemmas/C01Lemmas, C01OpLemmas, C01ArithLemmas,
-C01Select, C01MemLemmas, C01Compose, C01Frame, C01Value, C01Effects, C01Machine, C01EffectsValue).
+C01Select, C01MemLemmas, C01Compose, C01Frame, C01Value, C01Effects, C01Machine, C01EffectsValue, C01Pointer).
 
 Objects:
 * `Gen.CommonType.getCommonType`, `opRule`  — regenerated from type.c on every check (translator);
 * `Gen.CastTable.castTable`, `getTypeId`     — regenerated from codegen.c on every check (translator);
 * `C01Codegen.cast / genBinop / genUnop / typeBinary / typeUnary` — hand model of the integer arms of codegen.c / add_type,
   tied by assembly-text equality with `chibicc -S` on all operator × 9×9 type pairs;
+* `C01.compileE` / `compileX` (Model/C01Expr) — `gen_expr` on whole expression trees (pure; with `,` `=` `op=` `++` `--` and
+  the hidden temporaries of parse.c `to_assign` / `new_inc_dec`), `scaleCode` / `ptrAddCode` / `ptrDiffCode` — pointer
+  arithmetic of `new_add` / `new_sub`; tied by instruction-text equality with `chibicc -S` on generated nests and on every
+  pointer form × element size × index type;
 * `X86.run` — instruction semantics, tied to the host CPU;
 * `Spec.IntSpec` — C11 6.3.1 / 6.5, tied to gcc.
 `Represents t r v` is the representation invariant of codegen.c (Lemmas/C01Lemmas).
@@ -19,6 +23,7 @@ import ChibiVerif.Lemmas.C01Select
 import ChibiVerif.Lemmas.C01Compose
 import ChibiVerif.Lemmas.C01Value
 import ChibiVerif.Lemmas.C01EffectsValue
+import ChibiVerif.Lemmas.C01Pointer
 
 namespace ChibiVerif.Props.C01
 open ChibiVerif.C01 ChibiVerif.X86 ChibiVerif.Asm ChibiVerif.Spec.IntSpec ChibiVerif.Gen.CommonType ChibiVerif.C01Codegen
@@ -262,12 +267,81 @@ example : ∃ code, compileX exEnv.tys exXOff exXToff 0 exXE = some (.u32, code,
     FrameX exEnv exXOff exXToff 2 (depthX exXE) exXState :=
   ⟨_, rfl, rfl, rfl, rfl, exXFrame⟩
 
+/-- **the layout hypothesis of `C01_value_effects` holds for every frame whose offsets pass the executable check
+    `layoutOK`** (each variable and hidden temporary inside `[-N, 0)` relative to `%rbp`, pairwise disjoint) once the
+    prologue has established `%rbp = %rsp + N`.  checklib/C01.py runs `layoutOK` on the offsets chibicc actually assigns
+    in every generated function of leg b2. -/
+theorem C01_layout (σ : Env) (off toff : Nat → Int) (K : Nat) (N : Int) (n : Nat) (m : State)
+    (h : layoutOK σ.tys off toff K N = true) (hbp : ((m.get .rbp).toNat : Int) = (m.get .rsp).toNat + N)
+    (hhi : (m.get .rbp).toNat + 8 ≤ 2 ^ 64) (hn : 8 * n ≤ (m.get .rsp).toNat) (hH : Holds off σ m) :
+    FrameX σ off toff K n m :=
+  ⟨hn, lay_of_layoutOK σ.tys off toff K N h (m.get .rbp) _ hbp hhi, hH⟩
+
+example : layoutOK exEnv.tys exXOff exXToff 2 32 = true := by decide
+
 /-- on side-effect-free expressions the two compilers coincide, so `C01_value_effects` extends `C01_value` -/
 theorem C01_value_effects_extends (tys : List ITy) (off toff : Nat → Int) (e : E) (t : ITy) (code : List Ins) (k : Nat)
     (h : compileE tys off e = some (t, code)) : compileX tys off toff k e = some (t, code, k) :=
   compileX_pure tys off toff e t code k h
 
 example : compileE exEnv.tys exOff exE ≠ none := by decide
+
+/-! ## pointer arithmetic (parse.c `new_add`, `new_sub`) -/
+
+/-- **the index of pointer arithmetic is scaled by a 64-bit multiplication of the sign/zero-extended index** (C11 6.5.6p8:
+    `p + i` points `i` elements on, i.e. `i * sizeof *p` bytes): `new_add` / `new_sub` build `ND_MUL(idx, new_long(size))`;
+    for every index type (`_Bool` … `unsigned long`), every index value `vi`, every element size, any side-effect-free index
+    code: the sequence `scaleCode` leaves `%rax = vi * size` modulo 2^64 — no 32-bit wrap-around for `int` / `unsigned`
+    or narrower indices whose byte offset exceeds 2^31.  Shared by `p + i`, `i + p`, `p - i`, `p[i]`, `p += i`, `p -= i`,
+    `++p`, `p++`, `--p`, `p--` (tied to parse.c by the instruction text of all these forms, checklib/C01.py leg b3). -/
+theorem C01_ptr_scale (σ : Env) (off : Nat → Int) (ei : E) (ti : ITy) (ci : List Ins) (vi size : Int) (m : State)
+    (hci : compileE σ.tys off ei = some (ti, ci)) (hvi : evalE σ ei = some (vi, σ)) (hs : ITy.i64.inRange size)
+    (hf : FrameHolds σ off (depthE ei + 1) m) :
+    ∃ m', X86.run (scaleCode ti size ci) m = some m' ∧ m'.get .rax = BitVec.ofInt 64 (vi * size) ∧
+      m'.get .rsp = m.get .rsp ∧ m'.get .rbp = m.get .rbp ∧ FrameHolds σ off (depthE ei + 1) m' := by
+  obtain ⟨m', hrun, hr, hk⟩ := scale_ev ti size ci vi hs hf
+    (fun m2 hf2 => (value_pure σ off ei ti ci vi σ m2 (depthE ei) hci hvi (Nat.le_refl _) hf2).2)
+  exact ⟨m', hrun, hr, hk.rsp, hk.rbp, hf.keeps hk⟩
+
+/-- **`p + e`, `p - e` (`e + p`, `&p[e]`) have the C11 address `p ± e * sizeof *p`** (modulo 2^64), for every index type
+    and value, every element size, any side-effect-free index expression `e`, the pointer held in an 8-byte variable `j`
+    of the frame (value `pv`) -/
+theorem C01_ptr_add (isSub : Bool) (σ : Env) (off : Nat → Int) (ei : E) (ti : ITy) (ci : List Ins) (vi : Int) (j : Nat)
+    (pv size : Int) (m : State) (hci : compileE σ.tys off ei = some (ti, ci)) (hvi : evalE σ ei = some (vi, σ))
+    (hj : σ.tys[j]? = some .u64) (hpv : σ.vals[j]? = some pv) (hs : ITy.i64.inRange size)
+    (hf : FrameHolds σ off (depthE ei + 2) m) :
+    ∃ m', X86.run (ptrAddCode isSub ti size ci (ptrVarCode (off j))) m = some m' ∧
+      m'.get .rax = BitVec.ofInt 64 (if isSub then pv - vi * size else pv + vi * size) ∧
+      m'.get .rsp = m.get .rsp ∧ m'.get .rbp = m.get .rbp ∧ FrameHolds σ off (depthE ei + 2) m' := by
+  obtain ⟨m', hrun, hr, hk⟩ := ptr_add_expr isSub σ off ei ti ci vi j pv size m hci hvi hj hpv hs hf
+  exact ⟨m', hrun, hr, hk.rsp, hk.rbp, hf.keeps hk⟩
+
+/-- **`p - q` is the number of elements between the two pointers** (C11 6.5.6p9): `(long)(p - q) / (long)size` by
+    `cqo; idiv`; if `p` is `k` elements after `q` (`k * size` a `long`), `%rax` represents `k` in type `long` -/
+theorem C01_ptr_diff (σ : Env) (off : Nat → Int) (jp jq : Nat) (pv qv size k : Int) (m : State)
+    (hjp : σ.tys[jp]? = some .u64) (hpv : σ.vals[jp]? = some pv) (hjq : σ.tys[jq]? = some .u64)
+    (hqv : σ.vals[jq]? = some qv) (hs0 : 0 < size) (hs : ITy.i32.inRange size) (hk : ITy.i64.inRange (k * size))
+    (hpq : pv = qv + k * size) (hf : FrameHolds σ off 2 m) :
+    ∃ m', X86.run (ptrDiffCode size (ptrVarCode (off jp)) (ptrVarCode (off jq))) m = some m' ∧
+      Represents .i64 (m'.get .rax) k ∧ m'.get .rsp = m.get .rsp ∧ m'.get .rbp = m.get .rbp ∧ FrameHolds σ off 2 m' := by
+  obtain ⟨m', hrun, hr, hkp⟩ := ptr_diff_ev (n := 0) size (ptrVarCode (off jp)) (ptrVarCode (off jq)) (BitVec.ofInt 64 pv)
+    (BitVec.ofInt 64 qv) k hs0 hs hk (by rw [hpq, BitVec.ofInt_add]) hf
+    (fun j m2 _ hf2 => ptrVar_ev jp pv hjp hpv j m2 hf2) (fun j m2 _ hf2 => ptrVar_ev jq qv hjq hqv j m2 hf2)
+  exact ⟨m', hrun, hr, hkp.rsp, hkp.rbp, hf.keeps hkp⟩
+
+/-- non-vacuity: two `int *` 600 000 000 elements (2 400 000 000 bytes) apart in a concrete frame -/
+example : ptrEnv2.tys[0]? = some .u64 ∧ ptrEnv2.vals[0]? = some 0x10008f0d1800 ∧ ptrEnv2.tys[1]? = some .u64 ∧
+    ptrEnv2.vals[1]? = some 0x100000000000 ∧ ITy.i32.inRange 4 ∧ ITy.i64.inRange (600000000 * 4) ∧
+    (0x10008f0d1800 : Int) = 0x100000000000 + 600000000 * 4 ∧ FrameHolds ptrEnv2 exOff 2 ptrState2 :=
+  ⟨rfl, rfl, rfl, rfl, by decide, by decide, by decide, ptrFrame2⟩
+
+/-- non-vacuity: `int *p = (int *)0x100000000000; int i = 600000000; p + i` (byte offset 2 400 000 000 > 2^31): the
+    hypotheses are satisfiable (a frame holding the pointer and the index), and the address is `p + 2400000000` -/
+example : ∃ (σ : Env) (m : State) (ci : List Ins), compileE σ.tys exOff (.var 1) = some (.i32, ci) ∧
+    evalE σ (.var 1) = some (600000000, σ) ∧ σ.tys[0]? = some .u64 ∧ σ.vals[0]? = some 0x100000000000 ∧
+    FrameHolds σ exOff (depthE (.var 1) + 2) m ∧
+    BitVec.ofInt 64 (0x100000000000 + 600000000 * 4) = 0x10008f0d1800#64 :=
+  ⟨ptrEnv, ptrState, _, rfl, rfl, rfl, rfl, ptrFrame, by decide⟩
 
 /-- one step on a value already in `%rax` (the fragment proved before `C01_value`; kept, now a special case): a leaf
     followed by any chain of casts and unary operators is `C01_load` / `C01_cast` / `C01_unary_full` / `C01_lognot`
